@@ -240,7 +240,7 @@ impl M {
   }
 
   /// Linearisation-dependent clauses under candidate c; Ok(updated candidate) or Err(reason).
-  fn check_cand(&self, op: &Op, res: &[Ret], held_after: &BTreeSet<(u8, i64)>, sh: &Shared, c: &Cand) -> Result<Cand, (String, String)> {
+  fn check_cand(&self, op: &Op, res: &[Ret], returned: &BTreeSet<(u8, i64)>, held_after: &BTreeSet<(u8, i64)>, sh: &Shared, c: &Cand) -> Result<Cand, (String, String)> {
     // clause 3
     for r in res {
       if let Some(i) = &r.info {
@@ -263,8 +263,14 @@ impl M {
     for (k, rs) in by_inst {
       let im = c2.inst.get_mut(&k).unwrap();
       if rs.iter().any(|r| r.info.is_none()) {
-        im.view_unknown = true;
+        // A bare (info-less) access is an access all the same: the instance has been seen, in the generation
+        // of the newest sample it returned (the returned set is the matching set, see check_common).
         im.viewed_r1 = true;
+        if let Some(mx) = returned.iter().filter(|id| sh.arrivals[*id].key == k).map(|id| c.snap[id]).max() {
+          im.last_gen_r2 = mx;
+        } else {
+          im.view_unknown = true;
+        }
         continue;
       }
       let latest = rs.iter().max_by_key(|r| c.pos[&(r.w, r.sn)]).unwrap();
@@ -393,7 +399,7 @@ impl Model for M {
           let mut survivors = vec![];
           let mut first_err = None;
           for c in &cands {
-            match self.check_cand(op, &res, &held_after, &sh, c) {
+            match self.check_cand(op, &res, &returned, &held_after, &sh, c) {
               Ok(c2) => survivors.push(c2),
               Err(e) => {
                 if first_err.is_none() {
